@@ -551,6 +551,34 @@ def _enum_to_json(enum_class: Type[Enum], value: int) -> Union[str, int]:
     return int(value) if name is None else name
 
 
+def _scalar_to_json(proto_type: str, value: Any, enum_class: Any = None) -> Any:
+    """The proto3 JSON form of a single scalar (map values, wrapped values)."""
+    if proto_type in INT_64_TYPES:
+        return str(value)
+    if proto_type == TYPE_BYTES:
+        return b64encode(value).decode("utf8")
+    if proto_type in (TYPE_FLOAT, TYPE_DOUBLE):
+        return _dump_float(value)
+    if proto_type == TYPE_ENUM and enum_class is not None:
+        return _enum_to_json(enum_class, value)
+    return value
+
+
+def _scalar_from_json(proto_type: str, value: Any, enum_class: Any = None) -> Any:
+    """Inverse of :func:`_scalar_to_json`."""
+    if proto_type in INT_64_TYPES:
+        return int(value)
+    if proto_type == TYPE_BYTES:
+        return b64decode(value)
+    if proto_type in (TYPE_FLOAT, TYPE_DOUBLE):
+        return _parse_float(value)
+    if proto_type == TYPE_ENUM and enum_class is not None:
+        if isinstance(value, str):
+            return enum_class.from_string(value)
+        return enum_class.try_value(value)
+    return value
+
+
 def _dump_float(value: float) -> Union[float, str]:
     """Dump the given float to JSON
 
@@ -1567,6 +1595,10 @@ class Message(ABC):
                         output[cased_name] = _Duration.delta_to_json(value)
                 elif meta.wraps:
                     if value is not None or include_default_values:
+                        if isinstance(value, list):
+                            value = [_scalar_to_json(meta.wraps, i) for i in value]
+                        elif value is not None:
+                            value = _scalar_to_json(meta.wraps, value)
                         output[cased_name] = value
                 elif field_is_repeated:
                     # Convert each item.
@@ -1687,6 +1719,12 @@ class Message(ABC):
                         [sub_cls.from_dict(item) for item in value]
                         if isinstance(value, list)
                         else sub_cls.from_dict(value)
+                    )
+                else:
+                    value = (
+                        [_scalar_from_json(meta.wraps, item) for item in value]
+                        if isinstance(value, list)
+                        else _scalar_from_json(meta.wraps, value)
                     )
             elif meta.map_types and meta.map_types[1] == TYPE_MESSAGE:
                 sub_cls = cls._betterproto.cls_by_field[f"{field_name}.value"]
